@@ -57,5 +57,11 @@ PROPERTIES
   Act_C09_Cap
   Act_C09_Burned
   Act_C09_Fee
+  Act_C09_IssueFresh
+  Act_C09_AuthorityH
+  Act_C09_CapH
+  Act_C09_BurnedH
+  Act_C09_FeeH
+  Act_X09_RecordsAsHistory
   Act_Rejected_NoEffect
 CHECK_DEADLOCK FALSE
